@@ -57,6 +57,7 @@ impl<R: Read + Seek> ReadBox<&mut R> for MvexBox {
                     "mvex box contains a box with a larger size than it",
                 ));
             }
+            check_child_size(s)?;
 
             match name {
                 BoxType::MehdBox => {
